@@ -13,7 +13,8 @@ MANIFEST = {
                   "operation or start-up, and with any set of file-system calls (open, write incl. short writes, unlink) failing "
                   "with an I/O error, for every k, every fault set and every initial directory content (no bounds): whenever an "
                   "instance runs, every persisted record has its file with exactly its bytes and every other chunk file present is "
-                  "on the retry list (C04.inv, files_allowed, failed_store); right after a sweep or start-up at T every file of a "
+                  "on the retry list, and a store without failing call yields a persisted record (C04.inv, files_allowed, failed_store, "
+                  "store_persists); right after a sweep or start-up at T every file of a "
                   "chunk with deadline <= T or of an unknown id is gone or on the retry list (cleanup_faulty), and gone with an "
                   "empty retry list if that sweep/start-up ran without error, however the expiry was first noticed (cleanup); after "
                   "any crash and any number of crashing start-ups the next completed start-up leaves no chunk file and every other "
@@ -111,6 +112,48 @@ def gen_dir_case(rng, big: bool) -> Case:
     return Case(ops=ops, tag="dir/" + shape)
 
 
+def gen_rewipe_case(rng) -> Case:
+    """a wipe of X's file fails once (open or unlink refused) in a sweep, overwrite or start-up purge; X is stored again;
+    sweeps and ticks run while the new X is live: the retry owed for the old content must not touch the new file"""
+    passes = rng.choice([1, 2, 3])
+    default = rng.choice([30, 2])
+    ops = [f"init store {default} 1 1 {passes}"]
+    n = rng.choice([1, 5, 100, 4096, 4097, 10000])
+    writes = passes * ((n + 4095) // 4096)
+    k = rng.choice([0, 1 + writes])              # the open-for-overwrite, or the unlink, of the wipe
+    how = rng.choice(["sweep", "sweep", "overwrite", "restart"])
+    if rng.random() < 0.5:
+        ops.append(f"put c2 {big_payload(rng)} 1000")   # a bystander that stays live
+    if how == "sweep":
+        ops += [f"put c1 r{rng.randrange(256)}n{n} 1", f"adv {rng.choice([SECOND, SECOND + 1, 5 * SECOND])}"]
+        if rng.random() < 0.4:
+            ops.append("get c1")
+        ops += [f"failat {k} 0 sweep", "ls"]
+    elif how == "overwrite":
+        ops += [f"put c1 r{rng.randrange(256)}n{n} 1000", f"failat {k} 0 put c1 {big_payload(rng)} 1000", "ls"]
+    else:
+        ops += [f"put c1 r{rng.randrange(256)}n{n} 1000", f"failat {k} 0 restart", "ls"]
+    ttl = rng.choice([2, 50, 1000])
+    ops += [f"put c1 {big_payload(rng)} {ttl}", "ls"]
+    tr_deadline = ttl * SECOND
+    elapsed = 0
+    for _ in range(rng.randint(2, 6)):
+        r = rng.random()
+        if r < 0.5:
+            ops += ["sweep", "ls"]
+        elif r < 0.7:
+            ops.append("get c1")
+        elif r < 0.85:
+            d = rng.choice([1, SECOND // 2, SECOND])
+            ops.append(f"adv {d}")
+            elapsed += d
+        else:
+            ops += [f"put c1 {big_payload(rng)} {ttl}", "ls"]
+            elapsed = 0
+    ops += ["sweep", "ls", f"adv {max(0, tr_deadline - elapsed)}", "sweep", "ls"]
+    return Case(ops=ops, tag="dir/failed-wipe-restore")
+
+
 def gen_node_dir_case(rng) -> Case:
     mn = rng.choice([1, 2])
     mx = rng.choice([mn + 1, 60])
@@ -145,6 +188,8 @@ def generate(ctx, budget):
     for i in range(budget):
         if i % 6 == 5:
             cases.append(gen_node_dir_case(ctx.rng))
+        elif i % 6 == 2:
+            cases.append(gen_rewipe_case(ctx.rng))
         else:
             cases.append(gen_dir_case(ctx.rng, ctx.tier == "thorough" and i % 5 == 0))
     return cases
@@ -303,7 +348,8 @@ def spec() -> Spec:
         post=post,
         rule="(a) histories of put/overwrite/get/sweep/restart/planted files (and store_chunk/tick on a Node) on a real scratch "
              "directory, directory listing with content hashes after every mutating op, payload sizes {0,1,..,4095,4096,4097,8192,"
-             "10000}, 1-3 wipe passes; non-trivial = a chunk file is listed and later gone. (b) crash enumeration: for each crash "
+             "10000}, 1-3 wipe passes, plus the shape 'a wipe of X fails once, X is stored again, sweeps run while the new X is live'; "
+             "non-trivial = a chunk file is listed and later gone. (b) crash enumeration: for each crash "
              "history (store / overwrite / store over an orphan / sweep / sweep after a lookup noticed the expiry / start-up purge) "
              "and each k < number of mutating file-system calls of the crash op, a forked child process runs the op and is killed before its k-th "
              "call, the parent (which never ran the op) forgets its instance, lists the directory, restarts on it, sweeps and lists again; "
